@@ -11,7 +11,6 @@ from experimaestro.scheduler.workspace import RunMode
 from experimaestro import experiment
 
 logging.disable(logging.CRITICAL)
-SEALED_ROOT_INITS = False
 
 
 class Base(Config):
@@ -35,6 +34,7 @@ class Mid(Base):
 
 class Init(LightweightTask):
     v: Param[int] = 0
+    x: Param[Optional[Base]]
     p: Meta[Path] = field(default_factory=PathGenerator("i.txt"))
 
     def execute(self):
@@ -57,11 +57,14 @@ class T(Base, Task):
 
 
 GENS = {Leaf: [["p", "f.txt"]], Mid: [["p", "g.txt"], ["q", "h.txt"]], Init: [["p", "i.txt"]], T: [["dir", "out"]]}
-ORDER = {Leaf: ["v"], Init: ["v"], Mid: ["v", "m", "a", "l", "d"], T: ["v", "m", "a", "l", "d"]}
+ORDER = {Leaf: ["v"], Init: ["v", "x"], Mid: ["v", "m", "a", "l", "d"], T: ["v", "m", "a", "l", "d"]}
 
 
 def cls_of(o):
     return next(c for c in (T, Mid, Init, Leaf) if isinstance(o, c))
+
+
+stats = {"late": 0, "sealedroot": 0}
 
 
 def run_history(rng, wsdir, uid):
@@ -126,7 +129,7 @@ def run_history(rng, wsdir, uid):
     with experiment(wsdir, "x%d" % uid[0], run_mode=RunMode.DRY_RUN) as xp:
         jobs = Path(xp.workspace.path) / "jobs"
         register(Leaf(v=uid[0]))
-        for _ in range(rng.randint(8, 22)):
+        for _ in range(rng.randint(10, 30)):
             r = rng.random()
             if r < 0.30:
                 new_obj()
@@ -187,14 +190,22 @@ def run_history(rng, wsdir, uid):
                 cands = [i for i, o in enumerate(objs) if isinstance(o, T) and i not in submitted and complete(o, set())]
                 if not cands:
                     continue
-                i = rng.choice(cands)
+                sealed_c = [c for c in cands if objs[c].__xpm__._sealed]
+                i = rng.choice(sealed_c) if sealed_c and rng.random() < 0.8 else rng.choice(cands)
                 t = objs[i]
                 inits = []
-                # SEALED_ROOT_INITS: init tasks given to a task that an earlier submission already sealed are sealed (and get their
-                # generated paths) by submit() since fix 1c3ade1; enabled once Model/GenPathHist.lean follows that change
-                if rng.random() < 0.3 and (SEALED_ROOT_INITS or not t.__xpm__._sealed):
-                    uid[0] += 1
-                    inits = [register(Init(v=uid[0]))]
+                if rng.random() < 0.5:
+                    olds = [o for o in objs if isinstance(o, Init)]
+                    inits = [rng.choice(olds) for _ in range(rng.randint(0, 2))] if olds else []
+                    if rng.random() < 0.7:
+                        uid[0] += 1
+                        bs = [rng.choice([o for o in objs if isinstance(o, Leaf)])]  # no cycle through init tasks (updatedependencies loops)
+                        kw = {"v": uid[0]}
+                        if bs and rng.random() < 0.6:
+                            kw["x"] = bs[0]
+                        inits.insert(rng.randint(0, len(inits)), register(Init(**kw)))
+                stats["late"] += bool(t.__xpm__._sealed and any(not x.__xpm__._sealed for x in inits))
+                stats["sealedroot"] += bool(t.__xpm__._sealed)
                 # task outputs: marks existing non-task objects and/or a fresh object
                 marks = [o for o in objs if not isinstance(o, (Task,)) and not isinstance(o, Init) and rng.random() < 0.2]
                 fresh = rng.random() < 0.5
@@ -250,8 +261,10 @@ def main():
     out = []
     with tempfile.TemporaryDirectory(prefix="xv-c17hist-") as d:
         for k in range(n):
+            before = dict(stats)
             inp, got, state = run_history(rng, d, uid)
-            out.append({"input": inp, "got": got, "state": state})
+            out.append({"input": inp, "got": got, "state": state,
+                        "late_init_tasks": stats["late"] - before["late"], "sealed_roots": stats["sealedroot"] - before["sealedroot"]})
     Path(sys.argv[3]).write_text(json.dumps(out))
 
 
